@@ -408,25 +408,20 @@ def split_views(line):
 
 
 def view_equal(a, b):
-    """impl view `a` against model view `b`.  A model token `err:<x>` stands for
+    """impl view `a` against model view `b`.  In the model's text `err:<x>` stands for
     "some error" and matches any `err:<y>` of the implementation (the property
     does not fix the errno); `ERR:<x>` demands exactly that errno."""
     if a == b:
         return True
     if a is None or b is None or "rr:" not in b.lower():
         return False
-    ta, tb = a.split(" "), b.split(" ")
-    if len(ta) != len(tb):
-        return False
-    for x, y in zip(ta, tb):
-        if x == y:
-            continue
-        if y.startswith("err:") and x.startswith("err:"):
-            continue
-        if y.startswith("ERR:") and x == "err:" + y[4:]:
-            continue
-        return False
-    return True
+    pat = re.escape(b)
+    pat = re.sub(r"ERR:(\w+)", lambda m: "err:" + m.group(1), pat)
+    pat = re.sub(r"(?<![A-Za-z])err:\w+", lambda m: m.group(0) if False else "err:\\w+", pat) if "err:" in b else pat
+    # the substitution above must not loosen strict tokens: redo precisely
+    parts = re.split(r"(ERR:\w+|err:\w+)", b)
+    pat = "".join(("err:" + x[4:]) if x.startswith("ERR:") else (r"err:\w+" if x.startswith("err:") else re.escape(x)) for x in parts)
+    return re.fullmatch(pat, a) is not None
 
 
 def compare_case(impl, model):
